@@ -27,6 +27,7 @@ import (
 	"bytes"
 	"encoding/binary"
 	"encoding/hex"
+	"encoding/json"
 	"errors"
 	"fmt"
 	"os"
@@ -1233,7 +1234,8 @@ func (s *vfC09Scn) judgeFiles(f *vfC09Follower, t *vfC09Truth) {
 	}
 	fsig := func(idx uint32, sig string) string {
 		if transferIdx[idx] {
-			return sig + "(file-received-transfer-records)"
+			// one cause class for every deviation of a file that was (also) written by a file transfer
+			return "follower-append-file-corrupt-after-file-transfer"
 		}
 		return sig
 	}
@@ -1459,6 +1461,15 @@ func TestVerif_C09(t *testing.T) {
 	start := time.Now()
 	vfContinueAfterPanic = true
 	env := vfGetEnv("C09")
+	if env.Replay != "" {
+		// a replay file names the seed of the run that produced it
+		var doc struct {
+			Seed int64 `json:"seed"`
+		}
+		if b, err := os.ReadFile(env.Replay); err == nil && json.Unmarshal(b, &doc) == nil && doc.Seed != 0 {
+			env.Seed = doc.Seed
+		}
+	}
 	n := env.N(16, 400)
 	part := vfRunSharded(t, env, "TestVerif_C09", n, 8, func(part *vfPart, i int) {
 		vfC09Case(env, part, i)
